@@ -82,13 +82,14 @@ type obsEv struct {
 }
 
 type Run struct {
-	Lines    []string
-	Obs      []string
-	Failures []Fail
-	Err      string
-	Forks    int
-	MaxSeen  int
-	Txs      int
+	Lines       []string
+	Obs         []string
+	Failures    []Fail
+	Err         string
+	Forks       int
+	ManualForks int
+	MaxSeen     int
+	Txs         int
 }
 
 type Fail struct {
@@ -108,7 +109,6 @@ type tracer struct {
 	errCount            map[string]int // error count last seen per worker
 	killReq             map[string]bool
 	inflightSet         map[string]bool // boot addresses of forks past the gate whose SetWorker has not run yet
-	overlap             bool            // a fork passed the gate with tracked + in-flight already at Max
 	lastTracked, lastPR int
 	roundOpen           bool // inside the fork loop of a normalizing round
 	roundTracked        int  // tracked workers when the round listed them
@@ -179,13 +179,9 @@ func (t *tracer) TransitionEnd(tx *am.Transition) {
 	// the property in its own words
 	if snap.Tracked > s.Max {
 		if os.Getenv("SUP_TRACE") != "" {
-			fmt.Fprintf(os.Stderr, "OVER tracked=%d max=%d overlap=%v inflight=%d lines=%v\n", snap.Tracked, s.Max, t.overlap, len(t.inflightSet), t.run.Lines)
+			fmt.Fprintf(os.Stderr, "OVER tracked=%d max=%d inflight=%d lines=%v\n", snap.Tracked, s.Max, len(t.inflightSet), t.run.Lines)
 		}
-		finding := ""
-		if t.inflightOverlap() {
-			finding = "C15-overlapping-fork-rounds-exceed-max"
-		}
-		t.fail(finding, "the supervisor tracks %d workers, Max is %d", snap.Tracked, s.Max)
+		t.fail("", "the supervisor tracks %d workers, Max is %d", snap.Tracked, s.Max)
 	}
 	if isPR && !t.prActive && snap.Ready < snap.MinEff {
 		t.fail("", "PoolReady became active with %d ready workers, min() is %d", snap.Ready, snap.MinEff)
@@ -214,6 +210,8 @@ func (t *tracer) TransitionEnd(tx *am.Transition) {
 		}
 	case isAdd && has(called, ssS.ListWorkers):
 		t.roundOpen = false
+	case isAdd && has(called, ssS.ForkWorker) && args != nil && args.Id == "verif-manual":
+		// a fork asked for from outside the normalizing rounds: not part of a round's count
 	case isAdd && has(called, ssS.ForkWorker):
 		if t.roundOpen {
 			t.roundAsked++
@@ -231,26 +229,21 @@ func (t *tracer) TransitionEnd(tx *am.Transition) {
 			}
 		}
 	case isAdd && has(called, ssS.ForkingWorker):
-		// the fork gate proper (ForkingWorkerEnter); Enter also rejects a missing bootstrap
-		if acc {
-			if snap.Tracked+len(t.inflightSet) >= s.Max {
-				t.overlap = true
-			}
-			if args != nil && args.Bootstrap != nil {
+		// the fork gate proper (ForkingWorkerEnter); Enter also rejects a missing bootstrap. A fork that
+		// passes is in the map (under its boot address) when the transition ends
+		if args != nil && args.Bootstrap != nil {
+			if acc {
 				t.inflightSet[args.Bootstrap.Addr()] = true
 			}
-			t.emit("sup fork", outStr("ok"))
-		} else if args != nil && args.Bootstrap != nil {
-			t.emit("sup fork", outStr("vetoed"))
+			t.emit(fmt.Sprintf("sup fork %d", t.id(args.Bootstrap.Addr())), outStr(okv(acc)))
 		}
-		if acc && snap.Tracked >= s.Max {
-			t.fail("", "a fork passed the gate while %d workers were tracked, Max is %d", snap.Tracked, s.Max)
-		}
-	case isAdd && has(called, ssS.SetWorker) && acc:
-		if args != nil && args.WorkerInfo != nil {
+	case isAdd && has(called, ssS.SetWorker):
+		if args != nil && args.WorkerAddr != "" && args.WorkerInfo != nil {
+			// a registration: let in when the address is tracked or there is room (SetWorkerEnter)
 			delete(t.inflightSet, args.WorkerAddr)
-			t.emit(fmt.Sprintf("sup set %d", t.id(args.WorkerAddr)), outStr("ok"))
-		} else if args != nil {
+			t.emit(fmt.Sprintf("sup set %d", t.id(args.WorkerAddr)), outStr(okv(acc)))
+		} else if args != nil && args.WorkerAddr != "" && acc {
+			delete(t.inflightSet, args.WorkerAddr)
 			t.emit(fmt.Sprintf("sup del %d", t.id(args.WorkerAddr)), outStr("ok"))
 		}
 	case isAdd && has(called, ssS.WorkerForked) && acc:
@@ -299,13 +292,6 @@ func (t *tracer) TransitionEnd(tx *am.Transition) {
 	}
 }
 
-// inflightOverlap: some fork passed the gate although tracked + in-flight forks had already
-// reached Max (the hypothesis of C15_tracked_le_max_partial was broken by the schedule: the
-// gates count tracked workers only).
-func (t *tracer) inflightOverlap() bool {
-	return t.overlap && t.roundOverlap
-}
-
 type workerSet struct {
 	mu      sync.Mutex
 	workers map[string]*node.Worker // by boot address
@@ -348,13 +334,7 @@ func Exec(c Case) *Run {
 			}
 		}
 		if c.ForkFailEvery > 0 && n%c.ForkFailEvery == 0 {
-			// the fork failed after the gate: it will never register
-			tr.mu.Lock()
-			if tr.inflightSet[addr] {
-				delete(tr.inflightSet, addr)
-				tr.emit("sup failed", fmt.Sprintf("out=ok tracked=%d pr=%d", tr.lastTracked, tr.lastPR))
-			}
-			tr.mu.Unlock()
+			// the fork fails after the gate: the supervisor takes it out of the map again (SetWorker without info)
 			return fmt.Errorf("fork %d failed", n)
 		}
 		w, err := node.NewWorker(ctx, kind, ssnode.WorkerSchema, ssW.Names(), nil)
@@ -423,6 +403,15 @@ func Exec(c Case) *Run {
 				continue
 			}
 			s.Mach.Add1(ssS.WorkerKilled, node.Pass(&node.A{LocalAddr: as[n%len(as)]}))
+		case "fork":
+			// two fork requests from outside the rounds, n ms apart (ForkWorker is a public state of the
+			// supervisor): both gates must hold whoever asks. With one free slot the second request passes
+			// the first gate too; whether its second step comes before or after the first one registered is
+			// up to the schedule
+			run.ManualForks += 2
+			s.Mach.Add1(ssS.ForkWorker, node.Pass(&node.A{Id: "verif-manual"}))
+			time.Sleep(time.Duration(n) * time.Millisecond)
+			s.Mach.Add1(ssS.ForkWorker, node.Pass(&node.A{Id: "verif-manual"}))
 		case "check":
 			s.CheckPool()
 		case "heartbeat":
@@ -493,7 +482,12 @@ func GenCase(r *rand.Rand) Case {
 		case 3:
 			c.Actions = append(c.Actions, fmt.Sprintf("kill:%d", r.Intn(4)))
 		case 4:
-			c.Actions = append(c.Actions, "check")
+			if r.Intn(2) == 0 {
+				// a slot is freed, then asked for twice
+				c.Actions = append(c.Actions, fmt.Sprintf("kill:%d", r.Intn(4)), fmt.Sprintf("fork:%d", []int{0, 0, 1, 2, 4, 8}[r.Intn(6)]), "wait:120")
+			} else {
+				c.Actions = append(c.Actions, "check")
+			}
 		case 5:
 			c.Actions = append(c.Actions, "heartbeat")
 		default:
